@@ -863,7 +863,9 @@ func TestC41(t *testing.T) {
 		for _, strict := range []c41Rule{{Grade: "A", Chacha: true}, {Grade: "B", Chacha: true}, {Grade: "C", Chacha: false}, {Grade: "C", Chacha: true}} {
 			srv := &c41Srv{Cert: "rsa", HasRules: true, Rules: map[string]c41Rule{
 				"a.verif.example": {Grade: "C", Chacha: true}, "b.verif.example": strict}}
-			cli := &c41Cli{Min: vTLS10, Max: vTLS12, Suites: []uint16{suite, 0x002f}, SNI: "a.verif.example", Cache: true, SNI2: "b.verif.example"}
+			// single-suite offer: the std client sends its own preference order (RC4 last), so a second
+			// suite would win the first handshake
+			cli := &c41Cli{Min: vTLS10, Max: vTLS12, Suites: []uint16{suite}, SNI: "a.verif.example", Cache: true, SNI2: "b.verif.example"}
 			c41CheckNeg(t, rec, srv, cli, 500)
 		}
 	}
